@@ -99,5 +99,5 @@ class DeleteTag(Contract):
             out.append(Case(label, [s, tag], post, pre=[ptag], heap=heap, models=models,
                             symbols=dict(tag_defined=has_tag, datatype_recorded=has_dt, connected=connected, tagname=tag),
                             replay=lambda w: {"target": "bounded.replay_helpers:delete_tag_cases"},
-                            confirm=lambda w, out: out.get("kind") != "return" or out.get("value") is not True, expect_paths=3))
+                            confirm=battery_confirm, expect_paths=3))
         return out
